@@ -188,6 +188,16 @@ def readValue : M RawValue := do
   else if n ≥ 0 then do let raw ← readRaw n.toNat; pure (.value raw)
   else fail "valuelen"
 
+/-- The rest of the buffer (`frame.to_bytes()` / `buf_bytes.slice_ref(buf)`). -/
+def takeRest : M Bytes := fun s => (.ok s.buf, { s with buf := [] })
+
+/-- `cond.then(|| m).transpose()?`: read an optional field. -/
+def optRead (c : Bool) (m : M α) : M (Option α) :=
+  if c then (m >>= fun a => pure (some a)) else pure none
+
+/-- `if cond { m } else { default }`. -/
+def condRead (c : Bool) (m : M α) (d : α) : M α := if c then m else pure d
+
 /-- Run a reader on a byte string from a fresh state. -/
 def run (m : M α) (bs : Bytes) : Outcome α × St := m { buf := bs }
 
